@@ -7,6 +7,7 @@ import (
 
 	"github.com/feichai0017/NoKV/internal/verifstubs/memfs"
 	sym "github.com/feichai0017/NoKV/internal/verifsym"
+	"github.com/feichai0017/NoKV/kv"
 	"github.com/feichai0017/NoKV/manifest"
 	"github.com/feichai0017/NoKV/wal"
 )
@@ -136,5 +137,34 @@ func VerifC36FlushRemoval() {
 			sym.Assert(!st.neededByRaft(fid), "flush-keeps-untruncated-raft-entries")
 		}
 	}
+	sym.Reached("end")
+}
+
+// ---- flush failure (real LSM flush path over model tables) ----
+//
+// A sealed memtable is flushed by the real flush worker / levelManager.flush;
+// the manifest install may fail with an I/O error. The memtable's WAL segment
+// may be removed only once a table holding its writes is installed: after a
+// failed flush it must still exist (the writes live nowhere else on disk), and
+// the write stays readable either way.
+func VerifC36FlushFailureKeepsWAL() {
+	sym.FreeRun()
+	v := VerifOpenLSM("skiplist")
+	payload := sym.U8("payload")
+	key := kv.InternalKey(kv.CFDefault, []byte("a"), 1)
+	sym.Assert(v.L.Set(kv.NewEntry(key, []byte{payload})) == nil, "write-accepted")
+	seg := v.L.memTable.segmentID
+	v.L.Rotate()
+	if sym.Int("manifest_install_fails", 0, 1) == 1 {
+		VerifFailManifest = true
+		v.FlushAllExpectingFailure()
+		sym.Assert(VerifManifestFailed == 1, "fault-injected")
+		sym.Assert(!v.WALSegmentGone(seg), "wal-segment-kept-until-its-memtable-is-installed")
+	} else {
+		v.FlushAll()
+	}
+	got, err := v.L.Get(key)
+	sym.Assert(err == nil && got != nil && len(got.Value) == 1 && got.Value[0] == payload, "write-still-readable")
+	v.Close()
 	sym.Reached("end")
 }
